@@ -10,7 +10,7 @@
 
 use crate::util::*;
 use easy_ml::interop::{MatrixRefTensor, TensorRefMatrix};
-use easy_ml::matrices::views::{MatrixMut, MatrixRange, MatrixRef};
+use easy_ml::matrices::views::{MatrixMut, MatrixRange, MatrixRef, MatrixReverse, Reverse as MReverse};
 use easy_ml::matrices::Matrix;
 use easy_ml::tensors::indexing::{TensorAccess, TensorTranspose};
 use easy_ml::tensors::views::{
@@ -194,11 +194,37 @@ enum Post {
     Swap,
 }
 
+/// a matrix-side adaptor between `MatrixRefTensor` (or a `Matrix`) and `TensorRefMatrix`
+#[derive(Clone, Copy, Debug)]
+enum MOp {
+    /// `MatrixRange::from(source, rows, columns)`: row start, row length, column start, column length
+    Range(usize, usize, usize, usize),
+    /// `MatrixReverse::from(source, Reverse { rows, columns })`
+    Reverse(bool, bool),
+}
+
+/// `range:rs:rl:cs:cl;reverse:1:0;…`
+fn parse_mops(s: &str) -> Option<Vec<MOp>> {
+    if s.is_empty() {
+        return Some(vec![]);
+    }
+    s.split(';')
+        .map(|part| {
+            let f: Vec<&str> = part.split(':').collect();
+            match f.as_slice() {
+                ["range", a, b, c, d] => Some(MOp::Range(a.parse().ok()?, b.parse().ok()?, c.parse().ok()?, d.parse().ok()?)),
+                ["reverse", r, c] if (*r == "0" || *r == "1") && (*c == "0" || *c == "1") => Some(MOp::Reverse(*r == "1", *c == "1")),
+                _ => None,
+            }
+        })
+        .collect()
+}
+
 #[derive(Clone, Debug)]
 enum Op {
     Leaf { id: u64, shape: Vec<(&'static str, usize)>, slot: Option<usize> },
     Matrix { id: u64, rows: usize, cols: usize, names: [&'static str; 2], slot: Option<usize> },
-    MatrixOf { names: [&'static str; 2] },
+    MatrixOf { names: [&'static str; 2], ops: Vec<MOp> },
     Range { named: Vec<(&'static str, usize, usize)>, strict: bool, mask: bool },
     Index { provided: Vec<(&'static str, usize)> },
     Expand { extra: Vec<(usize, &'static str)> },
@@ -243,12 +269,12 @@ fn parse_op(toks: &[&str]) -> Option<Op> {
             }
             Op::Matrix { id: id.parse().ok()?, rows: rows.parse().ok()?, cols: cols.parse().ok()?, names: [n[0], n[1]], slot: None }
         }
-        ["matrixof", names, ..] => {
+        ["matrixof", names, rest @ ..] => {
             let n = parse_names(names);
             if n.len() != 2 {
                 return None;
             }
-            Op::MatrixOf { names: [n[0], n[1]] }
+            Op::MatrixOf { names: [n[0], n[1]], ops: parse_mops(opt_arg("ops", rest).unwrap_or(""))? }
         }
         ["range", spec, rest @ ..] => Op::Range { named: parse_triples(spec), strict: opt_arg("kind", rest) == Some("strict"), mask: false },
         ["mask", spec, rest @ ..] => Op::Range { named: parse_triples(spec), strict: opt_arg("kind", rest) == Some("strict"), mask: true },
@@ -1122,7 +1148,7 @@ fn apply_op(stack: &mut Vec<DV>, op: &mut Op, arena: &mut Vec<Leaf>, prev_leaf: 
             stack.push(DV::D2(wrap(v, via)));
             Ok(())
         }
-        Op::MatrixOf { names } => {
+        Op::MatrixOf { names, ops } => {
             let top = stack.pop().ok_or(Rej::Skip)?;
             let src = match top {
                 DV::D2(src) => src,
@@ -1133,7 +1159,11 @@ fn apply_op(stack: &mut Vec<DV>, op: &mut Op, arena: &mut Vec<Leaf>, prev_leaf: 
             };
             // the tensor view as a matrix (row or column major, or neither), possibly behind
             // matrix wrappers that pass the layout on, as a tensor again
-            let matrix = MatrixRefTensor::from(src);
+            // `+direct` (the top is a bare matrix leaf): the adaptors sit on the `Matrix` itself
+            let direct: Option<&'static mut Matrix<u64>> = match (via.contains("+direct"), prev_leaf.map(|s| &arena[s].ptr)) {
+                (true, Some(LeafPtr::M(p))) => Some(unsafe { &mut **p }),
+                _ => None,
+            };
             fn finish<M: MatrixMut<u64> + easy_ml::matrices::views::NoInteriorMutability + 'static>(
                 m: M,
                 names: [&'static str; 2],
@@ -1151,7 +1181,26 @@ fn apply_op(stack: &mut Vec<DV>, op: &mut Op, arena: &mut Vec<Leaf>, prev_leaf: 
                     }
                 }
             }
-            let v: Dyn<2> = if via.contains("+mbox") {
+            type DM = Box<dyn MatrixMut<u64>>;
+            fn adapt(mut m: DM, ops: &[MOp]) -> DM {
+                for op in ops {
+                    m = match *op {
+                        MOp::Range(rs, rl, cs, cl) => Box::new(MatrixRange::from(m, IndexRange::new(rs, rl), IndexRange::new(cs, cl))),
+                        MOp::Reverse(rows, columns) => Box::new(MatrixReverse::from(m, MReverse { rows, columns })),
+                    };
+                }
+                m
+            }
+            if let Some(m) = direct {
+                drop(src);
+                let v = finish(adapt(Box::new(m), ops), *names, via)?;
+                stack.push(DV::D2(wrap(v, via)));
+                return Ok(());
+            }
+            let matrix = MatrixRefTensor::from(src);
+            let v: Dyn<2> = if !ops.is_empty() || via.contains("+dyn") {
+                finish(adapt(Box::new(matrix), ops), *names, via)?
+            } else if via.contains("+mbox") {
                 finish(Box::new(matrix), *names, via)?
             } else if via.contains("+mrange") {
                 let (rows, columns) = (matrix.view_rows(), matrix.view_columns());
@@ -1485,6 +1534,9 @@ impl Runner {
     fn prev_leaf_of(recipe: &[(Op, String)]) -> Option<usize> {
         match recipe.last() {
             Some((Op::Leaf { slot, .. }, _)) => *slot,
+            // (a matrix leaf: no `Tensor` methods apply, `leaf_ptr` finds nothing; `matrixof` can
+            // put its adaptors on the `Matrix` itself)
+            Some((Op::Matrix { slot, .. }, _)) => *slot,
             _ => None,
         }
     }
@@ -1956,11 +2008,12 @@ impl Script {
     }
 }
 
-const STATIC_KEYS: [&str; 16] = [
+const STATIC_KEYS: [&str; 17] = [
     "stack_tuple2_refs", "stack_tuple3_mixed", "stack_tuple4_owned", "stack_array_boxed_ref",
     "chain_tuple2_mut", "chain_tuple3_refs", "chain_tuple4_owned", "chain_array3_refs",
     "matrix_backed", "tensor_methods", "matrix_of_tensor_view", "rename_setters",
     "reverse_swap_source", "record_display_map", "boxed_dyn_ref", "shared_receivers",
+    "matrix_stacks_typed",
 ];
 
 fn static_case(key: &str) -> Vec<(String, String)> {
@@ -2119,6 +2172,55 @@ fn static_case(key: &str) -> Vec<(String, String)> {
             s.built("transpose y,x", &tr);
             s.probe(&tr);
             s.memorder(&tr);
+        }
+        "matrix_stacks_typed" => {
+            // matrix-side adaptors with their concrete types (nothing erased) between a Matrix /
+            // a MatrixRefTensor and TensorRefMatrix
+            let m = Matrix::from_flat_row_major((4, 5), leaf_values(1, 20));
+            s.rec("matrix 1 4 5 row,column via=static".into(), "ok shape=row:4,column:5".into());
+            {
+                let stack = MatrixReverse::from(MatrixRange::from(&m, 1..3, 1..4), MReverse { rows: true, columns: true });
+                let v = TensorRefMatrix::with_names(stack, ["x", "y"]).unwrap();
+                s.built("matrixof x,y ops=range:1:2:1:3;reverse:1:1", &v);
+                s.probe(&v);
+                s.memorder(&v);
+            }
+            let t2 = s.leaf(2, [("r", 4), ("c", 5)]);
+            {
+                let stack = MatrixReverse::from(MatrixRefTensor::from(&t2), MReverse { rows: false, columns: false });
+                let v = TensorRefMatrix::with_names(stack, ["x", "y"]).unwrap();
+                s.built("matrixof x,y ops=reverse:0:0", &v);
+                s.probe(&v);
+                s.memorder(&v);
+                let rn = TensorRename::from(&v, ["p", "q"]);
+                s.built("rename p,q", &rn);
+                s.probe(&rn);
+                s.memorder(&rn);
+            }
+            let t3 = s.leaf(3, [("r", 4), ("c", 5)]);
+            {
+                let reordered = t3.index_by(["c", "r"]);
+                s.built("access c,r", &reordered);
+                let stack = MatrixRange::from(MatrixRefTensor::from(reordered), 1..3, 0..4);
+                let v = TensorRefMatrix::with_names(stack, ["x", "y"]).unwrap();
+                s.built("matrixof x,y ops=range:1:2:0:4", &v);
+                s.probe(&v);
+                s.memorder(&v);
+                let tr = TensorTranspose::from(&v, ["y", "x"]);
+                s.built("transpose y,x", &tr);
+                s.probe(&tr);
+                s.memorder(&tr);
+            }
+            let mut m4 = Matrix::from_flat_row_major((3, 4), leaf_values(4, 12));
+            s.rec("matrix 4 3 4 row,column via=static".into(), "ok shape=row:3,column:4".into());
+            {
+                let stack = MatrixRange::from(MatrixReverse::from(&mut m4, MReverse { rows: true, columns: false }), 0..2, 1..3);
+                let mut v = TensorRefMatrix::from(stack).unwrap();
+                s.built("matrixof row,column ops=reverse:1:0;range:0:2:1:2", &v);
+                s.probe(&v);
+                s.memorder(&v);
+                s.probe_mut(&mut v);
+            }
         }
         "rename_setters" => {
             // the mutators of an existing adaptor: TensorRename::set_names (directly and through
